@@ -23,7 +23,7 @@ NAMES = [n for n in common.SINGLE + common.CROSS]
 
 def generate(seed: int, tier: str = "quick") -> dict:
     rng = seeds.stream(seed, "cfg")
-    spec, cfg = common.draw_system(rng, seed, PROP, families=("single",) * 6 + ("cross",) * 4, lazy_prob=0.2)
+    spec, cfg = common.draw_system(rng, seed, PROP, families=("single",) * 6 + ("cross",) * 4, lazy_prob=0.2, dask_eager_prob=0.1)
     cfg["ops"] = generate_ops(seeds.stream(seed, "ops"), cfg, spec, tier)
     return cfg
 
@@ -319,7 +319,7 @@ def execute(cfg: dict, *, stop_at_first=True, trace=False) -> RunResult:
     counts["clock_jumps"] = clock.jumps
     res.stats = counts
     res.coverage = {"history": ",".join(cov["hist"]), "bigrams": sorted(cov["bigrams"]), "states": sorted(cov["states"]),
-                    "cell": f"{spec.name}|{'lazy' if cfg['lazy'] else 'eager'}", "interleavings": list(sim.stats.digests),
+                    "cell": f"{spec.name}|{'lazy' if cfg['lazy'] else ('dask-eager' if cfg.get('dask_eager') else 'eager')}", "interleavings": list(sim.stats.digests),
                     "probes": sorted(cov["probes"])}
     res.log += [f"sched {c['op']} {c['site']} n={c['n']} {c.get('digest', '')}" for c in sim.call_log]
     return res
